@@ -261,7 +261,7 @@ theorem intersect_covers_two (P Q : List Path) :
 
 `Schema` is a table of message descriptors (fields refer to their message type by index, so recursive
 message types are finite); a `Field` records what `numValidPaths` reads from a descriptor:
-`Name()`, `Kind() == GroupKind`, `Message().Name()`, `Message()`, `IsList()`, `IsMap()`. -/
+`Name()`, `Kind() == GroupKind`, `TextName()`, `Message()`, `IsList()`, `IsMap()`. -/
 
 /-- `rangeFields` visits `strings.Split(path, ".")`: the components are dot-free, there is at least
 one, joining them with `.` gives the path back, and `splitDots` is the only such decomposition. -/
@@ -273,13 +273,14 @@ theorem splitDots_unique (cs : List Path) (hne : cs ≠ []) (hd : ∀ f ∈ cs, 
     splitDots (joinDots cs) = cs := splitDots_joinDots cs hne hd
 
 /-- The component `c` selects the field `fd` of message `md`, declaratively:
-a non-group field by its name; a group-kind field by the *name of its message type*, provided the
-field is itself called like that or is called `strings.ToLower` of it and no field called `c`
-shadows it.  (This is the rule coded in the closure of `numValidPaths`.) -/
+a non-group-kind field by its name; a group-kind field (proto2 group or editions DELIMITED field) by its
+*text name* (`TextName()`: the message type name when the field is group-like, else the field name),
+provided the field is itself called like that or is called `strings.ToLower` of it and no field
+called `c` shadows it.  (This is the rule coded in the closure of `numValidPaths`.) -/
 def Names (md : MsgDef) (c : Path) (fd : Field) : Prop :=
   fd ∈ md ∧
   ((fd.isGroup = false ∧ fd.name = c) ∨
-   (fd.isGroup = true ∧ fd.msgName = c ∧
+   (fd.isGroup = true ∧ fd.textName = c ∧
       (fd.name = c ∨ (fd.name = toLower c ∧ ∀ g ∈ md, g.name ≠ c))))
 
 theorem lookupField_sound {md : MsgDef} {c : Path} {fd : Field}
@@ -307,7 +308,7 @@ theorem lookupField_sound {md : MsgDef} {c : Path} {fd : Field}
       cases hg : fd'.isGroup with
       | false => exact Or.inl ⟨rfl, hname⟩
       | true =>
-        have : fd'.msgName = c := by simpa [hg] using hc
+        have : fd'.textName = c := by simpa [hg] using hc
         exact Or.inr ⟨rfl, this, Or.inl hname⟩
 
 theorem lookupField_complete {md : MsgDef} (hnd : (md.map (·.name)).Nodup) {c : Path} {fd : Field}
@@ -449,25 +450,22 @@ theorem new_spec (schema : Schema) (root : Nat) (paths : List Path) :
 
 /-! ### which fields can be named at all
 
-FULL STATEMENT (read off the property: every field reachable through singular message fields can be
-named by some path), per message:
+Every field can be named by some path component (so every field reachable through singular message
+fields can be named by some path).  What the theorem needs from a descriptor is what
+`protoreflect.FieldDescriptor.TextName` guarantees (`TextNameWF`): for a group-kind field the text name
+is the field name itself (DELIMITED field that is not group-like), or the field name is the lower-cased
+text name (group-like field: text name = message type name) and no *other* field of the message is
+called like that text name (the closure looks `c` up by field name first, so such a field would
+shadow the group; the harness checks `TextNameWF` on every corpus message type).
 
-    theorem every_field_selectable (md : MsgDef) (hnd : (md.map (·.name)).Nodup) (fd : Field)
-        (hm : fd ∈ md) : ∃ c, lookupField md c = some fd
-
-It is FALSE of the current code (`every_field_selectable_refuted`): a field of `Kind() == GroupKind`
-whose name is not its message type's name (lower-cased) is rejected under every spelling.  Since
-editions, `Kind()` is `GroupKind` for *every* message field with `features.message_encoding = DELIMITED`,
-e.g. `not_group_like_delimited` of goproto.proto.testeditions.TestAllTypes: `fieldmaskpb.New(m,
-"not_group_like_delimited")` fails, and so does every other spelling (known finding
-`delimited-field-unnameable`; the harness replays it on the real code on every run).
-Proved instead: the exact condition (`field_selectable_iff`) and the statement under the hypothesis
-that excludes such fields (`every_field_selectable_partial`). -/
+History: before /repo commit 9230271 the closure compared with `Message().Name()` instead of `TextName()`
+and this statement was refuted by `not_group_like_delimited` of testeditions.TestAllTypes
+(see the `fixed:` line in known-findings.txt). -/
 
 theorem field_selectable_iff (md : MsgDef) (hnd : (md.map (·.name)).Nodup) (fd : Field) (hm : fd ∈ md) :
     (∃ c, lookupField md c = some fd) ↔
-      (fd.isGroup = false ∨ fd.name = fd.msgName ∨
-        (fd.name = toLower fd.msgName ∧ ∀ g ∈ md, g.name ≠ fd.msgName)) := by
+      (fd.isGroup = false ∨ fd.name = fd.textName ∨
+        (fd.name = toLower fd.textName ∧ ∀ g ∈ md, g.name ≠ fd.textName)) := by
   constructor
   · rintro ⟨c, h⟩
     obtain ⟨_, h⟩ := lookupField_sound h
@@ -481,38 +479,45 @@ theorem field_selectable_iff (md : MsgDef) (hnd : (md.map (·.name)).Nodup) (fd 
     | true =>
       rcases h with h | h | ⟨h1, h2⟩
       · rw [hg] at h; cases h
-      · exact ⟨fd.msgName, lookupField_complete hnd ⟨hm, Or.inr ⟨hg, rfl, Or.inl h⟩⟩⟩
-      · exact ⟨fd.msgName, lookupField_complete hnd ⟨hm, Or.inr ⟨hg, rfl, Or.inr ⟨h1, h2⟩⟩⟩⟩
+      · exact ⟨fd.textName, lookupField_complete hnd ⟨hm, Or.inr ⟨hg, rfl, Or.inl h⟩⟩⟩
+      · exact ⟨fd.textName, lookupField_complete hnd ⟨hm, Or.inr ⟨hg, rfl, Or.inr ⟨h1, h2⟩⟩⟩⟩
 
-/-- group-like: what proto2 `group` declarations (and editions fields spelled like them) look like -/
-def GroupLike (md : MsgDef) (fd : Field) : Prop :=
-  fd.isGroup = true → fd.name = toLower fd.msgName ∧ ∀ g ∈ md, g.name ≠ fd.msgName
+/-- what `TextName()` guarantees for a group-kind field (see the section comment) -/
+def TextNameWF (md : MsgDef) (fd : Field) : Prop :=
+  fd.isGroup = true →
+    fd.textName = fd.name ∨ (fd.name = toLower fd.textName ∧ ∀ g ∈ md, g.name ≠ fd.textName)
 
-theorem every_field_selectable_partial (md : MsgDef) (hnd : (md.map (·.name)).Nodup) (fd : Field)
-    (hm : fd ∈ md) (hg : GroupLike md fd) : ∃ c, lookupField md c = some fd := by
+theorem every_field_selectable (md : MsgDef) (hnd : (md.map (·.name)).Nodup) (fd : Field)
+    (hm : fd ∈ md) (hwf : TextNameWF md fd) : ∃ c, lookupField md c = some fd := by
   rw [field_selectable_iff md hnd fd hm]
   cases h : fd.isGroup with
   | false => exact Or.inl rfl
-  | true => exact Or.inr (Or.inr (hg h))
+  | true =>
+    rcases hwf h with e | e
+    · exact Or.inr (Or.inl e.symm)
+    · exact Or.inr (Or.inr e)
+
+/-- the component that selects a field is its text name (group-kind) or its name (otherwise) -/
+theorem lookupField_textName (md : MsgDef) (c : Path) (fd : Field) (h : lookupField md c = some fd) :
+    c = if fd.isGroup then fd.textName else fd.name := by
+  obtain ⟨_, h⟩ := lookupField_sound h
+  rcases h with ⟨hg, hn⟩ | ⟨hg, ht, _⟩
+  · simp [hg, hn]
+  · simp [hg, ht]
 
 /-- `optionalgroup` / `not_group_like_delimited` of testeditions.TestAllTypes, abbreviated:
-field `g` (message type `G`, delimited) and field `x` (message type `G`, delimited). -/
+field `g` (message type `G`, delimited, group-like: text name `G`) and field `x` (message type `G`,
+delimited, not group-like: text name `x`). -/
 def exGroupLike : Field := ⟨[103#8], true, [71#8], some 1, false, false⟩
-def exNotGroupLike : Field := ⟨[120#8], true, [71#8], some 1, false, false⟩
-def exScalar : Field := ⟨[98#8], false, [], none, false, false⟩
+def exNotGroupLike : Field := ⟨[120#8], true, [120#8], some 1, false, false⟩
 def exMd : MsgDef := [exGroupLike, exNotGroupLike]
 
-theorem every_field_selectable_refuted :
-    ¬ (∀ (md : MsgDef), (md.map (·.name)).Nodup → ∀ fd ∈ md, ∃ c, lookupField md c = some fd) := by
-  intro h
-  have hnd : (exMd.map (·.name)).Nodup := by decide
-  have hm : exNotGroupLike ∈ exMd := by decide
-  have := (field_selectable_iff exMd hnd exNotGroupLike hm).1 (h exMd hnd exNotGroupLike hm)
-  revert this
-  decide
-
-example : GroupLike exMd exGroupLike := by unfold GroupLike; decide
-example : lookupField exMd [71#8] = some exGroupLike := by decide
+example : (exMd.map (·.name)).Nodup := by decide
+example : TextNameWF exMd exGroupLike := by unfold TextNameWF; decide
+example : TextNameWF exMd exNotGroupLike := by unfold TextNameWF; decide
+example : lookupField exMd [71#8] = some exGroupLike := by decide       -- "G"
+example : lookupField exMd [103#8] = none := by decide                  -- "g": a group-like field is not named by its field name
+example : lookupField exMd [120#8] = some exNotGroupLike := by decide   -- "x": the repaired case
 
 /-! ### non-vacuity: the predicates distinguish things, on concrete values
 
@@ -557,15 +562,17 @@ example : normalizePaths [[97#8, 46#8, 98#8], [98#8], [97#8], [97#8]] = [[97#8],
 example : intersectLoop 4 [[97#8, 46#8, 98#8], [98#8]] [[97#8], [98#8, 46#8, 99#8]] =
     some [[97#8, 46#8, 98#8], [98#8, 46#8, 99#8]] := by decide
 
-/-- root = [a : M1, r : repeated M1, m : map, G g : group of M1, s : scalar]; M1 = [b : scalar, a : M1] -/
+/-- root = [a : M1, r : repeated M1, m : map, G g : group of M1, s : scalar, d : M1 delimited, not group-like];
+M1 = [b : scalar, a : M1]; the third component of a field is its text name -/
 def exSchema : Schema :=
-  [ [ ⟨[97#8], false, [77#8], some 1, false, false⟩,
-      ⟨[114#8], false, [77#8], some 1, true, false⟩,
-      ⟨[109#8], false, [69#8], some 2, true, true⟩,
+  [ [ ⟨[97#8], false, [97#8], some 1, false, false⟩,
+      ⟨[114#8], false, [114#8], some 1, true, false⟩,
+      ⟨[109#8], false, [109#8], some 2, true, true⟩,
       ⟨[103#8], true, [71#8], some 1, false, false⟩,
-      ⟨[115#8], false, [], none, false, false⟩ ],
-    [ ⟨[98#8], false, [], none, false, false⟩, ⟨[97#8], false, [77#8], some 1, false, false⟩ ],
-    [ ⟨[107#8], false, [], none, false, false⟩, ⟨[118#8], false, [], none, false, false⟩ ] ]
+      ⟨[115#8], false, [115#8], none, false, false⟩,
+      ⟨[100#8], true, [100#8], some 1, false, false⟩ ],
+    [ ⟨[98#8], false, [98#8], none, false, false⟩, ⟨[97#8], false, [97#8], some 1, false, false⟩ ],
+    [ ⟨[107#8], false, [107#8], none, false, false⟩, ⟨[118#8], false, [118#8], none, false, false⟩ ] ]
 
 example : UniqueNames exSchema := by unfold UniqueNames exSchema; decide
 example : pathValid exSchema 0 [97#8, 46#8, 98#8] = true := by decide                      -- a.b
@@ -575,6 +582,7 @@ example : pathValid exSchema 0 [114#8, 46#8, 98#8] = false := by decide         
 example : pathValid exSchema 0 [109#8, 46#8, 107#8] = false := by decide                   -- m.k: through a map
 example : pathValid exSchema 0 [71#8, 46#8, 98#8] = true := by decide                      -- G.b: group by type name
 example : pathValid exSchema 0 [103#8, 46#8, 98#8] = false := by decide                    -- g.b: not by field name
+example : pathValid exSchema 0 [100#8, 46#8, 98#8] = true := by decide                     -- d.b: delimited, not group-like
 example : pathValid exSchema 0 [115#8, 46#8, 98#8] = false := by decide                    -- s.b: through a scalar
 example : pathValid exSchema 0 [97#8, 46#8] = false := by decide                           -- "a.": empty component
 example : pathValid exSchema 0 [] = false := by decide                                     -- ""
